@@ -89,7 +89,7 @@ let () = reg "C06" "Hist" (fun ver args obs ->
          | HRUN (i, k, cnt) ->
            let v = view (int_of_nat i) in
            let k' = z2i k in
-           if k' = 2 then (if z2i cnt <> 0 then (reads := true; (match vhi v with Some h -> ask h | None -> ())))
+           if k' = 2 then (if z2i cnt <> 0 || ver <> "v3" then (reads := true; (match vhi v with Some h -> ask h | None -> ())))
            else if ver = "v3" && z2i cnt = 0 then ()
            else begin
              reads := true;
